@@ -72,10 +72,10 @@ def closure_of(s):
     chain = s["cfg"]["chain"]
     w, csv = (504, 1008) if chain == "btc" else (60, 10080)
     blk = lambda n, incl: dict(a="block", chain=chain, n=n, incl=(["all"] if incl else []))
-    steps = [dict(a="tick", m=10), dict(a="htlc", sid="s1", kind="settle"), dict(a="htlc", sid="s2", kind="settle"), blk(3, True), blk(w, False),
+    steps = [dict(a="recover"), dict(a="tick", m=10), dict(a="htlc", sid="s1", kind="settle"), dict(a="htlc", sid="s2", kind="settle"), blk(3, True), blk(w, False),
              blk(csv + 1, True), dict(a="restart"), dict(a="tick", m=10), blk(3, True), blk(csv + 1, True), dict(a="tick", m=10), dict(a="restart"),
              blk(3, True), blk(csv + 1, True)]
-    return dict(name=s["name"] + ":closed", cfg=s["cfg"], steps=list(s["steps"]) + steps, closed=True)
+    return dict(name=s["name"] + ":closed", cfg=s["cfg"], steps=list(s["steps"]) + steps, closed=True, stored_version=s.get("stored_version", ""))
 
 
 def run_all(tier):
@@ -124,7 +124,7 @@ def run_all(tier):
         # the peer stays silent, time passes, pending HTLCs resolve, the chain advances past every deadline, services succeed,
         # the node is restarted once - after which every swap must be terminal and its channel released (checked at `end`).
         nmodel = len(scheds)
-        scheds = scheds + [closure_of(s) for s in scheds]
+        scheds = scheds + [closure_of(s) for s in scheds if "upgrade" not in s["name"]]   # a refused upgrade keeps the node down by design (C29)
         sp = os.path.join(wd, "schedules.ndjson")
         with open(sp, "w") as f:
             for s in scheds:
@@ -148,7 +148,7 @@ def run_all(tier):
                 f.write(json.dumps(s) + "\n")
         rtrace = os.path.join(wd, "rtrace.ndjson")
         nodes = tempfile.mkdtemp(prefix="verif-nodes-", dir="/dev/shm" if os.path.isdir("/dev/shm") else None)
-        vp.run([binp, "-schedules", rp, "-out", rtrace, "-workers", str(vp.NCPU), "-tmp", nodes, "-retransmit", "2ms"], timeout=3000)
+        vp.run([binp, "-schedules", rp, "-out", rtrace, "-workers", str(vp.NCPU), "-tmp", nodes, "-retransmit", "25ms"], timeout=3000)
         shutil.rmtree(nodes, ignore_errors=True)
         shutil.rmtree(os.path.join(sd, "v"), ignore_errors=True)
         os.makedirs(os.path.join(sd, "v"))
@@ -185,7 +185,7 @@ def run_all(tier):
             viols.append(dict(sig=x["sig"], t=x["t"], seq=x["seq"], name=s["name"], schedule=dict(name=s["name"], cfg=s["cfg"], steps=s["steps"])))
         for x in rviol:
             s = rsched[x["t"] - 1]
-            viols.append(dict(sig=x["sig"], t=x["t"], seq=x["seq"], name=s["name"] + ":retransmit", schedule=dict(name=s["name"], cfg=s["cfg"], steps=s["steps"], psim_flags="-retransmit 2ms")))
+            viols.append(dict(sig=x["sig"], t=x["t"], seq=x["seq"], name=s["name"] + ":retransmit", schedule=dict(name=s["name"], cfg=s["cfg"], steps=s["steps"], psim_flags="-retransmit 25ms")))
         out = dict(key=key, retransmit=dict(schedules=len(rsched), events=rv["n"], retransmitted_copies=nretx), tier=tier, models=results, nschedules=len(scheds), nexported=exported, nclosed=len(scheds) - nmodel, nevents=nev, viol=viols,
                    drift=drift[:50], ndrift=len(drift), wall=round(time.time() - t0, 1),
                    states=sum(r["distinct"] for r in results.values()), transitions=sum(r["generated"] for r in results.values()),
